@@ -14,7 +14,7 @@ for dp, dn, fns in os.walk(root):
             name = "discopy" + p[len(root):-3].replace(os.sep, ".")
             if name.endswith(".__init__"):
                 name = name[:-9]
-            t = {k: v for k, v in alpha.table_of(ast.parse(open(p).read())).items() if v}
+            t = alpha.table_of(ast.parse(open(p).read()))
             if t:
                 table[name] = t
 json.dump(table, open(alpha.TABLE, "w"), indent=0, sort_keys=True)
